@@ -18,6 +18,7 @@ from .arr import Arr, ModelError, ShapeError, is_scalar
 from .values import (ClassInfo, Obj, SList, SRange, Delayed, FuncVal, BoundMethod, Bag, BagMap,
                      PyRaise, Opaque)
 from . import npmodel as N
+from . import smt
 
 REPO = os.environ.get("VERIF_REPO", "/repo")
 PKG = "src/bob/learn/em"
@@ -831,6 +832,22 @@ class Interp:
                 op.__name__, type(l).__name__, r.cls.name))
         if isinstance(l, (list, tuple)) and isinstance(r, (list, tuple)) and op is ast.Add:
             return l + r
+        if op is ast.Add and isinstance(l, SList) and isinstance(r, (SList, list)) and l.filt is None and getattr(r, "filt", None) is None:
+            # symbolic list + a tail whose length is a known small constant under the current assumptions: kept as a concrete tail
+            tail = None
+            if isinstance(r, list):
+                tail = list(r)
+            else:
+                for cnt in (0, 1, 2):
+                    st, _ = smt.prove(T.cmp_cond("==", r.slen(), Poly.const(cnt)), smt.Facts(conds=list(self.assumed)))
+                    if st == "proved":
+                        tail = [r.elem(Poly.const(j)) for j in range(cnt)]
+                        break
+            if tail is None:
+                raise Unsupported("concatenation of two symbolic lists")
+            out = SList(l.length, l.elem)
+            out.extra = list(getattr(l, "extra", [])) + tail
+            return out
         if isinstance(l, (list, SList)) and op is ast.Mult:
             if isinstance(r, Poly) and r.as_int() is None:
                 el = list(l)
@@ -1343,11 +1360,28 @@ class Interp:
             self.inplace_sites.append(self.loc)
             self.writes.append((self.loc, base.origin, "store"))
             base.assign_from(new)        # the array object itself changes: every alias sees it
+            self.propagate_view_store(base)
             return
         if hasattr(base, "setitem"):
             base.setitem(k, v)
             return
         raise Unsupported("subscript store on %s" % type(base).__name__)
+
+    def propagate_view_store(self, view):
+        """`view` is a NumPy view (basic indexing) of another array and has just been written: the parent sees the write.
+        Row views (x[i]) are written back; other views are outside the modelled subset."""
+        parent = getattr(view, "viewof", None)
+        if parent is None:
+            return
+        if getattr(view, "loop_row", False):
+            return                       # handled by the loop rule (loops.symbolic_for) after the body
+        rv = getattr(view, "rowview_of", None)
+        if rv is None:
+            raise Unsupported("store through a view that is not a row of its parent")
+        par, idx = rv
+        new = par.setitem((idx,), view.view())
+        par.assign_from(new)
+        self.propagate_view_store(par)
 
     def range_side(self, key, shape):
         if not isinstance(key, tuple):
@@ -1418,6 +1452,7 @@ class Interp:
                 self.writes.append((self.loc, cur.origin, "augassign"))
                 if isinstance(new, Arr) and new.ndim == cur.ndim:
                     cur.assign_from(new)         # numpy updates the left operand in place (aliases included)
+                    self.propagate_view_store(cur)
                     return
             if isinstance(cur, list) and isinstance(new, list):
                 cur[:] = new
@@ -1433,6 +1468,7 @@ class Interp:
                 self.writes.append((self.loc, cur.origin, "augassign"))
                 if isinstance(new, Arr) and new.ndim == cur.ndim:
                     cur.assign_from(new)
+                    self.propagate_view_store(cur)
                     new = cur
             # python: o.attr = o.attr.__iop__(v)  -- the attribute is always re-assigned
             self.setattr(o, t.attr, new)
@@ -1446,6 +1482,7 @@ class Interp:
                 self.inplace_sites.append(self.loc)
                 self.writes.append((self.loc, base.origin, "augstore"))
                 base.assign_from(base.setitem(k, new))
+                self.propagate_view_store(base)
             elif isinstance(base, (list, dict)):
                 if isinstance(k, Poly):
                     k = k.as_int()
